@@ -390,7 +390,7 @@ pub fn leaf_alphabet() -> Vec<Value> {
     ];
     for s in [
         "", "x", " ", "a,b", "\":[", "\": ", "a  b", "\\", "\"", "\u{0}", "\u{7f}", "\u{80}", "\u{e9}", "\u{7ff}", "\u{800}",
-        "\u{ffff}", "\u{10000}", "\u{1F600}", "\u{10FFFF}", "a:b", "[1,2]", "{\"k\":1}", "x\",\"y", "\\\":", "\n\t", "a~b", "~", "a.b.c", "7e3", "lot 7e3", "1e10", "2.5e-7", "0e0", "1E5", "123", "-1", "1.5", "true", "false", "null", "NaN", "Infinity", "0x10", "1_000", "1", "1.0", "0", "[]", "{}", "eyJhbGciOiJIUzI1NiJ9", "WyJzYWx0IiwgIm4iLCAxXQ", "...", "_sd",
+        "\u{ffff}", "\u{10000}", "\u{1F600}", "\u{10FFFF}", "a:b", "[1,2]", "{\"k\":1}", "x\",\"y", "\\\":", "\n\t", "a~b", "~", "a.b.c", "7e3", "lot 7e3", "1e10", "2.5e-7", "0e0", "1E5", "123", "-1", "1.5", "true", "false", "null", "NaN", "Infinity", "0x10", "1_000", "1", "1.0", "0", "[]", "{}", "<", ">", "&", "<a href='x'>&amp;</a>", "a<b", "\u{2028}", "eyJhbGciOiJIUzI1NiJ9", "WyJzYWx0IiwgIm4iLCAxXQ", "...", "_sd",
     ] {
         v.push(json!(s));
     }
